@@ -170,6 +170,7 @@ type Hand struct {
 	Replaying   bool
 	ReplayTrace []TraceStep // replay: execute exactly these steps (probe steps are re-made by the monitor)
 	replayPos   int
+	Opts        *pokerface.GameOptions // the options value the hand's game was made from (the table may start its next hand from the same value)
 	spare       pokerface.Game // a used game object from the pool: the hand may move onto it (LoadState) mid-way
 	lastInc     int64          // size of the last bet or raise actually made in this round, as seen by the driver (0 = none yet)
 }
@@ -246,7 +247,14 @@ func playHand(h *Hand, mon Monitor) {
 	c := h.C
 	var g pokerface.Game
 	startFresh := func() (pokerface.Game, error) {
-		f := newGameFor(c)
+		o := c.Opts()
+		var f pokerface.Game
+		if c.PlainCtor {
+			f = pokerface.NewGame(o)
+		} else {
+			f = pokerface.NewPokerFace().NewGame(o)
+		}
+		h.Opts = o
 		if err := f.Start(); err != nil {
 			return nil, err
 		}
@@ -388,6 +396,31 @@ func playHand(h *Hand, mon Monitor) {
 		}
 		if kind == "swap" {
 			h.Trace = append(h.Trace, TraceStep{Op: op, Kind: kind})
+			if h.spare == nil && op.Amt < 0 && h.ReplayTrace != nil {
+				// replay of a twin-hands case: the pooled object played the same steps, to the end, with the
+				// deck cut at -op.Amt
+				sc := *c
+				cut := int(-op.Amt) % len(c.Deck)
+				sc.Deck = append(append([]string{}, c.Deck[cut:]...), c.Deck[:cut]...)
+				sc.Noise, sc.Prev, sc.Reuse = false, nil, 0
+				if k := -1 - op.Seat; k > 0 && k < c.N {
+					sc.DealerIdx = (c.DealerIdx + k) % c.N
+					sc.Banks = make([]int64, c.N)
+					for i := 0; i < c.N; i++ {
+						sc.Banks[(i+k)%c.N] = c.Banks[i]
+					}
+				}
+				g1 := newGameFor(&sc)
+				if g1.Start() == nil {
+					copy(g1.GetState().Meta.Deck, sc.Deck)
+					for _, t := range h.ReplayTrace {
+						if t.Kind == "" {
+							applyOp(g1, t.Op)
+						}
+					}
+				}
+				h.spare = g1
+			}
 			if h.spare == nil {
 				// the pooled object: a bigger table when this hand has a previous one, else the same table with
 				// the deck cut elsewhere; it stopped after op.Amt steps of its own hand
@@ -398,7 +431,11 @@ func playHand(h *Hand, mon Monitor) {
 					sc.Deck = append(append([]string{}, c.Deck[11:]...), c.Deck[:11]...)
 				}
 				sc.Prev, sc.Reuse = nil, 0
-				h.spare = playPrefix(&sc, int(op.Amt))
+				steps := int(op.Amt)
+				if steps < 0 {
+					steps = 0
+				}
+				h.spare = playPrefix(&sc, steps)
 			}
 			next := h.spare
 			if ns := next.GetState(); ns != nil && len(ns.Status.Board) > len(s.Status.Board) {
